@@ -362,10 +362,15 @@ def event_to_case(e):
     return rec
 
 
+def random_fixed():
+    import random
+    return random.Random(7)
+
+
 def corpus_bind_validation(work, stats, v, prop, nfiles):
     import os
     files = C.corpus_files()
-    rng = C.rng(7)
+    rng = random_fixed()
     rng.shuffle(files)
     jobs = [{"files": {"t.rb": open(os.path.join(C.CORPUS, f)).read()}, "args": ["t.rb"], "trace": True, "tag": f}
             for f in files[:nfiles]]
